@@ -22,7 +22,8 @@ import (
 //	           ResumeJob of a paused job whose trigger is due soon
 //	stall      the loop's next Size() / Head() call (made by the loop only) reads the queue and then sleeps
 //	           20–40 ms; the call under test is issued while the loop is inside that call, i.e. inside the window
-//	           between reading the queue and blocking in select | none
+//	           between reading the queue and blocking in select | the queue mutation of the call under test itself
+//	           sleeps 5–15 ms before it takes effect (a token sent before the mutation would be used up) | none
 //	interleave concurrently with the call, other jobs are deleted / paused, or the queue is cleared just before it
 //
 // Verdict per scenario: the job's Execute starts within 300 ms of max(API return, its fire time, end of the
@@ -35,6 +36,7 @@ func init() { commands["wakeup"] = wakeupRun }
 type wuStallQ struct {
 	quartz.JobQueue
 	stallSize, stallHead atomic.Int64 // ns the next call sleeps after reading
+	stallMut             atomic.Int64 // ns the next Remove/Push sleeps before it takes effect
 	inSize, inHead       chan struct{}
 	lastCall             atomic.Int64
 	pops                 atomic.Int64
@@ -64,6 +66,20 @@ func (q *wuStallQ) Head() (quartz.ScheduledJob, error) {
 		time.Sleep(time.Duration(d))
 	}
 	return j, err
+}
+
+func (q *wuStallQ) Push(j quartz.ScheduledJob) error {
+	if d := q.stallMut.Swap(0); d > 0 {
+		time.Sleep(time.Duration(d))
+	}
+	return q.JobQueue.Push(j)
+}
+
+func (q *wuStallQ) Remove(k *quartz.JobKey) (quartz.ScheduledJob, error) {
+	if d := q.stallMut.Swap(0); d > 0 {
+		time.Sleep(time.Duration(d))
+	}
+	return q.JobQueue.Remove(k)
 }
 
 func (q *wuStallQ) Pop() (quartz.ScheduledJob, error) {
@@ -247,7 +263,9 @@ func wuRunScenario(sc wuScenario) (res wuResult) {
 		}
 	}
 	// open the re-arm window
-	if sc.Stall != "none" {
+	if sc.Stall == "mutation" {
+		res.StallHit = true
+	} else if sc.Stall != "none" {
 		var in chan struct{}
 		if sc.Stall == "size" {
 			q.stallSize.Store(int64(sc.StallFor))
@@ -307,6 +325,9 @@ func wuRunScenario(sc wuScenario) (res wuResult) {
 		}
 	}
 	// the call under test
+	if sc.Stall == "mutation" {
+		q.stallMut.Store(int64(sc.StallFor) / 3)
+	}
 	switch sc.Call {
 	case "schedule":
 		err = s.ScheduleJob(quartz.NewJobDetail(target, key), trig)
@@ -318,6 +339,7 @@ func wuRunScenario(sc wuScenario) (res wuResult) {
 		err = s.ResumeJob(key)
 	}
 	ret := time.Now().UnixNano()
+	q.stallMut.Store(0)
 	if err != nil {
 		iwg.Wait()
 		return fail("call under test", err)
@@ -370,7 +392,7 @@ func wuRunScenario(sc wuScenario) (res wuResult) {
 func wakeupRun(args []string) int {
 	fs := flag.NewFlagSet("wakeup", flag.ExitOnError)
 	seed := fs.Int64("seed", 1, "")
-	n := fs.Int("n", 360, "number of scenarios (the matrix has 180 cells)")
+	n := fs.Int("n", 480, "number of scenarios (the matrix has 240 cells)")
 	par := fs.Int("par", 12, "schedulers running in parallel")
 	out := fs.String("out", "", "")
 	fs.Parse(args)
@@ -379,7 +401,7 @@ func wakeupRun(args []string) int {
 	var cells []wuScenario
 	for _, park := range []string{"empty", "far", "paused", "blocking", "pool"} {
 		for _, call := range []string{"schedule", "replace", "resume"} {
-			for _, stall := range []string{"none", "size", "head"} {
+			for _, stall := range []string{"none", "size", "head", "mutation"} {
 				for _, inter := range []string{"none", "delete", "pause", "clear"} {
 					if inter == "clear" && call != "schedule" {
 						inter = "delete+pause-first" // Clear() would remove the job to be replaced / resumed
